@@ -175,6 +175,18 @@ namespace {
 }
 
 
+#ifdef BXDECAY0_VERIF
+// Verification hooks (guarded, add-only): re-entry points to the catalogue parsers, bypassing
+// the function-local static caches, so that one process can parse many catalogue files.
+namespace bxdecay0 {
+  namespace verif {
+    std::set<std::string> reparse_dbd_isotopes() { return ::_init_dbd_isotopes(); }
+    std::set<std::string> reparse_background_isotopes() { return ::_init_background_isotopes(); }
+    std::map<dbd_mode_type, dbd_record> reparse_dbd_modes() { return ::_init_dbd_modes(false); }
+  }
+}
+#endif // BXDECAY0_VERIF
+
 namespace bxdecay0 {
 
   const std::set<std::string> & dbd_isotopes()
